@@ -612,7 +612,7 @@ func vC05Passthrough(c *vCtx, kind string, maxN int) {
 		}
 		sort.Slice(xs, func(i, j int) bool { return xs[i] < xs[j] })
 		for _, q := range [][]float32{{1, 1}, {4, 4}, {7.5, 0.5}} {
-			for _, k := range []int{1, 3, 10} {
+			for _, k := range []int{1, 3, 10, math.MaxInt64} {
 				for _, np := range []int{0, 1, 2, 3, 4, 9} {
 					for _, ef := range []int{0, 1, 64} {
 						for _, thr := range []float32{0, 6.5} {
